@@ -301,10 +301,20 @@ def _loader(repo, rep):
               construct="memoised", where=wh, detail=str(deco))
     c = repo.func("chameleon.loader.cache")
     t = L.text(c.node)
-    rep.check("template = self.registry.get(args)" in t and
-              "self.registry[args] = template = func(self, *args, **kwargs)"
-              in t, "R16.3", c.qualname, "the same arguments return the same "
-              "instance", construct="registry", where=L.where(c))
+    inner_ = [n for n in ast.walk(c.node) if isinstance(n, ast.FunctionDef)
+              and n is not c.node]
+    gk = [src(L.inline_locals(inner_[0], n.args[0])) for n in ast.walk(
+        c.node) if isinstance(n, ast.Call) and
+        src(n.func) == "self.registry.get" and n.args] if inner_ else []
+    sk = [src(L.inline_locals(inner_[0], t_.slice)) for n in ast.walk(c.node)
+          if isinstance(n, ast.Assign) for t_ in n.targets
+          if isinstance(t_, ast.Subscript) and
+          src(t_.value) == "self.registry"] if inner_ else []
+    rep.check(len(gk) == 1 and gk == sk and "args" in gk[0] and
+              "func(self, *args, **kwargs)" in t, "R16.3", c.qualname,
+              "the same arguments return the same instance (looked up and "
+              "stored under one key made of the call's arguments)",
+              construct="registry", where=L.where(c), detail=str(gk + sk))
     t = L.text(f.node)
     rep.check("if self.default_extension is not None and '.' not in spec: "
               "spec += self.default_extension" in t, "R16.3", site,
